@@ -94,7 +94,7 @@ def apply(F):
     F.wrap([], r'pub\(crate\) struct AeadCtx<A: Aead, Kdf: KdfTrait, Kem: KemTrait>')
     C = [G3 + r' AeadCtx<A, Kdf, Kem>']
     F.contract(C, r'pub\(crate\) fn new\b', ret='r', clauses='''
-        ensures /*@C01 C02 C04 C07 C11 C16*/ r.view() == (CtxView {
+        ensures /*@C02 C04 C11 ~C01 ~C07*/ r.view() == (CtxView {
             overflowed: false, seq: 0, key: key.0.gv(), base_nonce: base_nonce.0.gv(),
             exporter_secret: exporter_secret.0.gv(),
             suite_id: full_suite_id_spec(Kem::KEM_ID, Kdf::KDF_ID, A::AEAD_ID) }),
